@@ -41,6 +41,7 @@ CONSTANTS
     SubCap, SubPol, \* channel of a "chan"/"iter" subscriber
     MaxTasks,     \* bound on the number of pool tasks
     CbReads,      \* scripted callbacks call get_state() and report the value
+    FineReg,      \* park also after the receive and before the reducers lock (run-time registration)
     Defects       \* subset of {"F2","F3","F6"}: known defects still present in the code
 
 VARIABLES
@@ -289,10 +290,13 @@ MwArgState(w) == IF L(w).ph = "before_reduce" THEN L(w).before ELSE L(w).st
 AfterMw(ph) == CASE ph = "before_reduce" -> "red.begin" [] ph = "before_effect" -> "eff.submit"
                  [] ph = "before_dispatch" -> "ntf.snapq"
 
-MMwCheck(w, ph) ==           \* `if !self.middlewares.lock().unwrap().is_empty()`, then lock for the loop
+MMwCheck2(w, ph) ==          \* `if !self.middlewares.lock().unwrap().is_empty()`, then lock for the loop
     IF w.mws = <<>> THEN Goto(w, AfterMw(ph))
     ELSE Goto([w EXCEPT !.lk["mws"] = w.t, !.loc[w.t].ph = ph, !.loc[w.t].i = 1, !.loc[w.t].calls = 0],
               "mw.call")
+
+MMwCheck(w, ph) ==           \* with FineReg: one park point before the middlewares lock of each phase
+    IF FineReg THEN Park([w EXCEPT !.loc[w.t].ph = ph], "mwchk", "mw.check", 0) ELSE MMwCheck2(w, ph)
 
 MMwCall(w) ==
     LET i == L(w).i IN
@@ -326,23 +330,34 @@ MMwEnd(w) ==
 -----------------------------------------------------------------------------
 (* The reducer thread, store_impl.rs:141-193                                  *)
 
+StartAction(w, x) ==
+    Goto([w EXCEPT !.h.recvd = Append(@, x),
+                   !.loc[w.t].a = x, !.loc[w.t].before = w.state, !.loc[w.t].st = w.state,
+                   !.loc[w.t].effs = <<>>, !.loc[w.t].needD = TRUE, !.loc[w.t].needN = TRUE,
+                   !.loc[w.t].redAct = TRUE], "mwr.check")
+
 MRecv(w) ==                  \* pc "recv": rx.recv() (guard: queue not empty or disconnected)
     LET q == w.chan["D"].q IN
     IF q = <<>>              \* disconnected and drained: leave the loop
     THEN Park(w, "clear", "clear.begin", 0)
     ELSE LET x == Head(q)
-             w1 == AddNote([w EXCEPT !.chan["D"].q = Tail(q), !.m.received = @ + 1],
-                           N("recv", x, <<>>)) IN
-         IF x = EXIT
-         THEN Park([w1 EXCEPT !.h.exitRecvd = @ + 1], "clear", "clear.begin", 0)
-         ELSE Goto([w1 EXCEPT !.h.recvd = Append(@, x),
-                              !.loc[w.t].a = x, !.loc[w.t].before = w.state, !.loc[w.t].st = w.state,
-                              !.loc[w.t].effs = <<>>, !.loc[w.t].needD = TRUE, !.loc[w.t].needN = TRUE,
-                              !.loc[w.t].redAct = TRUE],
-                   "mwr.check")
+             w0 == [w EXCEPT !.chan["D"].q = Tail(q), !.m.received = @ + 1] IN
+         IF FineReg
+         THEN Park([w0 EXCEPT !.loc[w.t].item = x], "recvd", "loop.recv", [item |-> x])
+         ELSE LET w1 == AddNote(w0, N("recv", x, <<>>)) IN
+              IF x = EXIT
+              THEN Park([w1 EXCEPT !.h.exitRecvd = @ + 1], "clear", "clear.begin", 0)
+              ELSE StartAction(w1, x)
+
+MRecvd(w) ==                 \* pc "recvd" (FineReg only)
+    LET x == L(w).item IN
+    IF x = EXIT THEN Park([w EXCEPT !.h.exitRecvd = @ + 1], "clear", "clear.begin", 0)
+    ELSE StartAction(w, x)
 
 MRedBegin(w) ==              \* store_impl.rs:331-334
-    IF L(w).redAct THEN Goto([w EXCEPT !.lk["reds"] = w.t, !.loc[w.t].i = 1], "red.call")
+    IF L(w).redAct
+    THEN IF FineReg THEN Park(w, "redb", "red.begin", 0)
+         ELSE Goto([w EXCEPT !.lk["reds"] = w.t, !.loc[w.t].i = 1], "red.call")
     ELSE Goto([w EXCEPT !.h.vetoed = @ \cup {L(w).a}], "write")
 
 MRedCall(w) ==
@@ -611,9 +626,12 @@ Micro(w) ==
       \* reducer thread
       [] p = "r.new"     -> Park(w, "recv", "loop.wait", 0)
       [] p = "recv"      -> MRecv(w)
+      [] p = "recvd"     -> MRecvd(w)
+      [] p = "redb"      -> Goto([w EXCEPT !.lk["reds"] = w.t, !.loc[w.t].i = 1], "red.call")
       [] p = "mwr.check" -> MMwCheck(w, "before_reduce")
       [] p = "mwe.check" -> MMwCheck(w, "before_effect")
       [] p = "mwd.check" -> MMwCheck(w, "before_dispatch")
+      [] p = "mwchk"     -> MMwCheck2(w, L(w).ph)
       [] p = "mw.call"   -> MMwCall(w)
       [] p = "mw.ret"    -> MMwRet(w)
       [] p = "mw.err"    -> Goto([w EXCEPT !.loc[w.t].i = @ + 1], "mw.call")
